@@ -827,3 +827,179 @@ B('c06-benign-arith-rewrite', 'C06', F,
         return cursor
 
     def _unpack_with_regexp_marker''')
+
+# =========================================================================== C03
+S('c03-endianness-regroup-dropped', 'C03', CG,
+  '''                    codes.extend(
+                        [
+                            self.
+                            generate_code_for_fixed_fields_with_struct_code(
+                                g, k
+                            ) for k, g in grouped_by_endianness
+                        ]
+                    )''',
+  '''                    codes.append(
+                        self.generate_code_for_fixed_fields_with_struct_code(
+                            group, group[0][2].is_bigendian
+                        )
+                    )''', 'R2-struct-block')
+S('c03-regroup-keyed-on-code', 'C03', CG,
+  '''                        groupby(group, lambda i_n_f: i_n_f[2].is_bigendian)''',
+  '''                        groupby(group, lambda i_n_f: i_n_f[2].is_fixed)''', 'R2-struct-block')
+S('c03-template-sync-dropped', 'C03', CG,
+  '''def pack_impl(pkt, fragments, **k):
+%(sync_descriptors_code)s
+   k['innermost-pkt-pos'] = fragments.current_offset''',
+  '''def pack_impl(pkt, fragments, **k):
+   k['innermost-pkt-pos'] = fragments.current_offset''', 'R2-skeleton')
+S('c03-block-index-off-by-one', 'C03', CG,
+  '''                } for field_index, name in zip(
+                    range(group[0][0], group[-1][0] +
+                          1), [g[1] for g in group]
+                )
+            ]
+        )
+
+    def generate_code_for_loop_unpack''',
+  '''                } for field_index, name in zip(
+                    range(group[0][0], group[-1][0]), [g[1] for g in group]
+                )
+            ]
+        )
+
+    def generate_code_for_loop_unpack''', 'R2-partition')
+S('c03-options-swapped', 'C03', PB,
+  '''            self.cls,
+            generate_for_pack,
+            generate_for_unpack,''',
+  '''            self.cls,
+            generate_for_unpack,
+            generate_for_pack,''', 'R2-option-plumbing')
+S('c03-template-handler-cursor', 'C03', CG,
+  '''      raise PacketError(True, name, pkt.__class__.__name__, offset, str(e))''',
+  '''      raise PacketError(True, name, pkt.__class__.__name__, k['innermost-pkt-pos'], str(e))''', 'R2-skeleton')
+S('c03-advance-len-group', 'C03', CG,
+  '''             'advance': struct.calcsize(fmt),''',
+  '''             'advance': sum(f.byte_count for _, _, f in group) if all(hasattr(f, 'byte_count') for _, _, f in group) else struct.calcsize(fmt),''', 'R2-struct-block')
+S('c03-targets-reversed', 'C03', CG,
+  '''            }) for _, name, _ in group]
+        )''',
+  '''            }) for _, name, _ in sorted(group, key=lambda t: t[1])]
+        )''', 'R2-struct-block')
+S('c03-unpack-block-drops-cursor', 'C03', CG,
+  '''name, _, _, unpack = fields[%(field_index)i]
+offset = unpack(pkt=pkt, raw=raw, offset=offset, **k)''',
+  '''name, _, _, unpack = fields[%(field_index)i]
+unpack(pkt=pkt, raw=raw, offset=offset, **k)''', 'R2-field-call')
+S('c03-pack-driver-takes-unpack-blocks', 'C03', CG,
+  '''                indent("\\n".join([c[0] for c in codes]), level=2),''',
+  '''                indent("\\n".join([c[1] for c in codes]), level=2),''', 'R2-partition')
+S('c03-variable-groups-filtered', 'C03', CG,
+  '''            (k, list(g)) for k, g in
+            itertools.groupby(self.fields, lambda i_n_f: i_n_f[2].is_fixed)
+        ]''',
+  '''            (k, list(g)) for k, g in
+            itertools.groupby(self.fields, lambda i_n_f: i_n_f[2].is_fixed)
+            if k or len(self.fields) < 64
+        ]''', 'R2-partition')
+S('c03-install-without-flag', 'C03', CG,
+  '''        if self.generate_for_unpack and (
+            self.pkt_class.unpack_impl == Packet.unpack_impl
+        ):''',
+  '''        if (self.generate_for_unpack or self.generate_for_pack) and (
+            self.pkt_class.unpack_impl == Packet.unpack_impl
+        ):''', 'R2-option-plumbing')
+S('c03-template-innermost-missing', 'C03', CG,
+  '''def unpack_impl(pkt, raw, offset, **k):
+   k['innermost-pkt-pos'] = offset
+   fields = pkt.get_fields()''',
+  '''def unpack_impl(pkt, raw, offset, **k):
+   fields = pkt.get_fields()''', 'R2-skeleton')
+S('c03-comments-inline', 'C03', CG,
+  """%(comments)s
+name, _, pack, _ = fields[%(field_index)i]""",
+  """name, _, pack, _ = fields[%(field_index)i] %(comments)s""", 'R2-annotate-comment-only')
+S('c03-annotation-not-commented', 'C03', PB,
+  '''        tmp = textwrap.dedent(''.join(tmp))
+        tmp = textwrap.indent(tmp, '# ')
+        self.sourcecode_by_field_name[last_field_name] = tmp''',
+  '''        tmp = textwrap.dedent(''.join(tmp))
+        self.sourcecode_by_field_name[last_field_name] = tmp''', 'R2-annotate-comment-only')
+S('c03-fields-enumerate-from-one', 'C03', PB,
+  '''                for i, name_f in enumerate(self.fields)''',
+  '''                for i, name_f in enumerate(self.fields, 1)''', 'R2-option-plumbing')
+S('c03-template-return-missing-sync-after', 'C03', CG,
+  '''      raise PacketError(True, name, pkt.__class__.__name__, offset, str(e))
+
+%(sync_descriptors_code)s
+   return offset''',
+  '''      raise PacketError(True, name, pkt.__class__.__name__, offset, str(e))
+
+   return offset''', 'R2-skeleton')
+B('c03-benign-lambda-rename', 'C03', CG,
+  '''            itertools.groupby(self.fields, lambda i_n_f: i_n_f[2].is_fixed)''',
+  '''            itertools.groupby(self.fields, key=lambda entry: entry[2].is_fixed)''')
+B('c03-benign-template-raise', 'C03', CG,
+  '''      e.add_parent_field_and_packet(offset, name, pkt.__class__.__name__)
+      raise e''',
+  '''      e.add_parent_field_and_packet(offset, name, pkt.__class__.__name__)
+      raise''')
+
+# =========================================================================== C05
+S('c05-table-lowercase', 'C05', F, "code = {1: 'B', 2: 'H', 4: 'I', 8: 'Q'}[self.byte_count]", "code = {1: 'B', 2: 'H', 4: 'i', 8: 'Q'}[self.byte_count]", 'R9-struct-codes')
+S('c05-table-wrong-size', 'C05', F, "code = {1: 'B', 2: 'H', 4: 'I', 8: 'Q'}[self.byte_count]", "code = {1: 'B', 2: 'H', 4: 'I', 8: 'L'}[self.byte_count]", 'R9-struct-codes')
+S('c05-signed-dropped-unpack', 'C05', F,
+  '''                byteorder='big' if self.is_bigendian else 'little',
+                signed=self.is_signed
+            )
+
+        except AttributeError:
+            if not self.is_bigendian:''',
+  '''                byteorder='big' if self.is_bigendian else 'little'
+            )
+
+        except AttributeError:
+            if not self.is_bigendian:''', 'R1-int-codec')
+S('c05-byteorder-flipped-pack', 'C05', F,
+  '''                self.byte_count,
+                byteorder='big' if self.is_bigendian else 'little',''',
+  '''                self.byte_count,
+                byteorder='little' if self.is_bigendian else 'big',''', 'R1-int-codec')
+S('c05-local-is-big', 'C05', F,
+  '''                            (self.endianness == 'local' and sys.byteorder == 'big')''',
+  '''                            (self.endianness == 'local')''', 'R9-endianness-fold')
+S('c05-network-dropped', 'C05', F,
+  '''        self.is_bigendian = (self.endianness in ('big', 'network')) or \\''',
+  '''        self.is_bigendian = (self.endianness in ('big', )) or \\''', 'R9-endianness-fold')
+S('c05-class-default-little', 'C05', F, "self.endianness = bisturi_conf.get('endianness', 'big')", "self.endianness = bisturi_conf.get('endianness', 'little')", 'R9-endianness-fold')
+S('c05-class-default-ignored', 'C05', F, "self.endianness = bisturi_conf.get('endianness', 'big')", "self.endianness = 'big'", 'R9-endianness-fold')
+S('c05-mask-before-pack', 'C05', F, '''        raw = self.struct_obj.pack(integer)''', '''        raw = self.struct_obj.pack(integer & ((1 << (8 * self.byte_count)) - 1))''', 'R1-int-codec')
+S('c05-wrap-arbitrary', 'C05', F,
+  '''        integer = getattr(pkt, self.field_name)
+
+        try:
+            data = integer.to_bytes(''',
+  '''        integer = getattr(pkt, self.field_name) % self.base
+
+        try:
+            data = integer.to_bytes(''', 'R1-int-codec')
+S('c05-native-prefix', 'C05', F, '''            fmt = (">" if self.is_bigendian else "<") + code''', '''            fmt = (">" if self.is_bigendian else "@") + code''', 'R9-struct-codes')
+S('c05-lower-inverted', 'C05', F,
+  '''            if self.is_signed:
+                code = code.lower()''',
+  '''            if not self.is_signed:
+                code = code.lower()''', 'R9-struct-codes')
+S('c05-ctor-signed-default', 'C05', F, 'def __init__(self, byte_count=4, signed=False, endianness=None, default=0):', 'def __init__(self, byte_count=4, signed=True, endianness=None, default=0):', 'R9-int-ctor')
+S('c05-codegen-prefix-inverted', 'C05', CG, '''        fmt = ">" if is_bigendian else "<"''', '''        fmt = "<" if is_bigendian else ">"''', 'R2-struct-block')
+S('c05-unpack-slice-tail', 'C05', F,
+  '''        integer = self.struct_obj.unpack(raw[offset:next_offset])[0]''',
+  '''        integer = self.struct_obj.unpack(raw[offset:next_offset])[-1] & 0x7fffffffffffffff''', 'R1-int-codec')
+B('c05-benign-bang-prefix', 'C05', F, '''            fmt = (">" if self.is_bigendian else "<") + code''', '''            fmt = ("!" if self.is_bigendian else "<") + code''')
+B('c05-benign-positional-byteorder', 'C05', F,
+  '''            data = integer.to_bytes(
+                self.byte_count,
+                byteorder='big' if self.is_bigendian else 'little',
+                signed=self.is_signed
+            )''',
+  '''            order = 'big' if self.is_bigendian else 'little'
+            data = integer.to_bytes(self.byte_count, order, signed=self.is_signed)''')
